@@ -847,6 +847,25 @@ fn run_enc(line: &str) -> CaseResult {
     } else if rf != want_wire {
         res = res.fail("wire-format", format!("reference decoder reads [{}] from the wire, sent [{}]", rf.join(" "), want_wire.join(" ")));
     }
+    // RFC 6455 §5.2: "the minimal number of bytes MUST be used to encode the length"
+    let mut pos = 0;
+    while pos + 2 <= wire.len() {
+        match ref_frame(&wire[pos..], peer_role != "c", usize::MAX >> 1) {
+            RefOne::Frame { payload, consumed, .. } => {
+                let l7 = wire[pos + 1] & 127;
+                let minimal = match payload.len() {
+                    0..=125 => l7 as usize == payload.len(),
+                    126..=65535 => l7 == 126,
+                    _ => l7 == 127,
+                };
+                if !minimal {
+                    res = res.fail("wire-format", format!("a {}-byte payload was written with length code {}", payload.len(), l7));
+                }
+                pos += consumed;
+            }
+            _ => break,
+        }
+    }
     if r.max_payload > max {
         res = res.fail("exceeds-max", format!("delivered a payload of {} bytes with max_size {}", r.max_payload, max));
     }
@@ -1203,6 +1222,28 @@ fn gen(ctx: &Ctx) -> Vec<String> {
         }
     }
 
+    // ---- stream: every sequence of up to three frame kinds (the continuation state machine, exhaustively)
+    let kinds: &[u8] = &[0x81, 0x82, 0x01, 0x02, 0x00, 0x80, 0x89, 0x09, 0x88, 0x08, 0x8a];
+    for role in ["s", "c"] {
+        let masked = role == "s";
+        for depth in 1..=3usize {
+            let total = kinds.len().pow(depth as u32);
+            for mut code in 0..total {
+                let mut bytes = Vec::new();
+                for j in 0..depth {
+                    let k = kinds[code % kinds.len()];
+                    code /= kinds.len();
+                    let key = [7u8.wrapping_mul(j as u8 + 1), 0x55, 0xaa, k];
+                    let pl = [b'a' + j as u8];
+                    bytes.extend(g_frame(k, masked, key, if k & 15 == 8 { &[] } else { &pl[..] }, 0, None));
+                }
+                let al = bytes.len() % 4;
+                let cut = (bytes.len() * 7 / 11).min(bytes.len());
+                cases.push(format!("stream role={role} max=65536 al={al} {}", cut_at(&bytes, &[cut])));
+            }
+        }
+    }
+
     // ---- stream: valid conversations, all 2-cuts / 1-byte feeds / random cuts
     let n_conv = ctx.budget(140);
     for ci in 0..n_conv {
@@ -1219,6 +1260,7 @@ fn gen(ctx: &Ctx) -> Vec<String> {
             let len = if rng.chance(1, 6) { *rng.pick(&[124usize, 125, 126, 127, 128]) } else { rng.below(24) };
             let mut pl = rng.bytes(len);
             // pick a legal next frame
+            let was_in_frag = in_frag;
             let choice = rng.below(10);
             let (mut first, ctl) = if choice < 3 {
                 (0x80 | *rng.pick(&[8u8, 9, 10]), true)
@@ -1254,7 +1296,7 @@ fn gen(ctx: &Ctx) -> Vec<String> {
             let mut announced = None;
             let mut form = if rng.chance(1, 8) { rng.below(3) as u8 } else { 0 };
             if fi == bad_at {
-                match rng.below(9) {
+                match rng.below(12) {
                     0 => m = !m,
                     1 => first = (first & 0xf0) | *rng.pick(&[3u8, 4, 5, 6, 7, 11, 12, 13, 14, 15]),
                     2 => first = *rng.pick(&[8u8, 9, 10]), // FIN=0 control
@@ -1263,7 +1305,8 @@ fn gen(ctx: &Ctx) -> Vec<String> {
                         let n = rng.range(126, 140);
                         pl = rng.bytes(n);
                     }
-                    4 => first = if in_frag { *rng.pick(&[1u8, 2]) } else { *rng.pick(&[0u8, 0x80]) },
+                    // start inside a fragmented message / continuation without start
+                    4 | 9 | 10 => first = if was_in_frag { *rng.pick(&[1u8, 2]) } else { *rng.pick(&[0u8, 0x80]) },
                     5 => {
                         announced = Some(max as u64 + 1 + rng.below(5) as u64);
                     }
